@@ -20,7 +20,8 @@ RULE = ('Hypothesis-generated call histories (5..14 operations) against ONE cach
         'short, 64 garbage bytes), and the same for InitialOperator.linform_vector. Invariant after every call: the '
         'returned array equals, bit for bit, the array of single-pair bilform(trial_j, test_i) / single-element linform '
         'values; at most one file per distinct (curve, lists) key; after damage the next call returns the exact array and '
-        'leaves a loadable file. Non-trivial = history with a cache hit after damage, or a pool call with >= 2 workers and '
+        'leaves a loadable file; plus the complete enumeration {matrix file, vector file} x six damage classes x {serial, '
+        'pool} for the call after the damage. Non-trivial = history with a cache hit after damage, or a pool call with >= 2 workers and '
         'N*M >= 100; distinct by history.')
 ASSUMPTIONS = ['the operating system\'s scheduling of the pool workers is not controlled; worker count, chunk size (through '
                'the code\'s own formula) and call history are', 'single-pair bilform / single-element linform is the '
@@ -172,7 +173,11 @@ def body(case, rec):
                 files = sorted(glob.glob(os.path.join(cdir, '*.npy')))
                 if not files:
                     continue
-                damage_file(files[op['which'] % len(files)], op['how'], op['which'])
+                if op['which'] < 0:
+                    for f in files:            # crash-point enumeration: every stored file gets this damage class
+                        damage_file(f, op['how'], 7)
+                else:
+                    damage_file(files[op['which'] % len(files)], op['how'], op['which'])
                 damaged = True
                 rec.cls('damage_' + op['how'])
                 continue
@@ -268,8 +273,24 @@ def body(case, rec):
         rec.sample(case)
 
 
+def crash_point_cases():
+    """complete enumeration: {matrix file, vector file} x every damage class x {serial, pool} for the call after the damage"""
+    out = []
+    for how in DAMAGE:
+        for mp_after in (False, True):
+            A = {'op': 'assemble', 'curve': 'UnitSquare', 'test': 'all', 'trial': 'rows', 'mp': False, 'workers': 1}
+            A2 = dict(A, mp=mp_after, workers=3)
+            M = {'op': 'm0', 'lst': 'small', 'mp': False, 'workers': 1}
+            M2 = dict(M, mp=mp_after, workers=2)
+            D = {'op': 'damage', 'which': -1, 'how': how}
+            out.append({'ops': [A, M, D, A2, M2, {'op': 'fresh'}, A, M]})
+    return out
+
+
 def run(ctx):
-    n = ctx.share(160 if ctx.quick else 2400)
+    for case in ctx.mine(crash_point_cases()):
+        body(case, ctx.rec)
+    n = ctx.share(800 if ctx.quick else 6400)
     explore(ctx, ops_strategy(), body, n)
 
 
